@@ -86,6 +86,7 @@ type recBackend struct {
 	lastProd    int64                             // UpdatedAt of the last state handed to the table
 	failAt      map[int]bool                      // call ordinals that must fail
 	failKind    string                            // the next call of this kind must fail (once)
+	failAll     bool                              // every further call fails: the hand is frozen (used after a history has ended inside a hand)
 	stateOnFail bool                              // a failing call still returns the state the engine computed (a lost reply)
 	delay       func()                            // run inside every call (a slow, remote engine)
 	onCreate    func(opts *pokerface.GameOptions) // observe the options of CreateGame
@@ -107,7 +108,7 @@ func (b *recBackend) do(kind string, f func() (*pokerface.GameState, error), in 
 	}
 	b.mu.Lock()
 	ord := len(b.calls)
-	fail := b.failAt[ord]
+	fail := b.failAt[ord] || b.failAll
 	if b.failKind != "" && b.failKind == kind {
 		fail = true
 		b.failKind = ""
@@ -225,16 +226,17 @@ type TEvent struct {
 }
 
 type Drv struct {
-	te         pt.TableEngine
-	be         *recBackend
-	mu         sync.Mutex
-	events     []TEvent
-	delivered  int64 // UpdatedAt of the last hand state seen in an OnTableUpdated callback
-	keepTables bool
-	max        int
-	rule       string
-	autoSetup  bool            // answer OnReadyOpenFirstTableGame with SetUpTableGame (as the competition layer does)
-	tap        func(*pt.Table) // called with the engine's own table on every table update, before anything else
+	te           pt.TableEngine
+	be           *recBackend
+	mu           sync.Mutex
+	events       []TEvent
+	delivered    int64 // UpdatedAt of the last hand state seen in an OnTableUpdated callback
+	keepTables   bool
+	max          int
+	rule         string
+	autoSetup    bool            // answer OnReadyOpenFirstTableGame with SetUpTableGame (as the competition layer does)
+	tap          func(*pt.Table) // called with the engine's own table on every table update, before anything else
+	slowListener func(pt.TablePlayerGameAction)
 }
 
 func NewDrv(setting pt.TableSetting, continueInterval int) (*Drv, error) {
@@ -346,6 +348,9 @@ func NewDrvWith(setting pt.TableSetting, continueInterval int, wrap func(pt.Game
 		d.mu.Unlock()
 	})
 	d.te.OnGamePlayerActionUpdated(func(a pt.TablePlayerGameAction) {
+		if f := d.slowListener; f != nil {
+			f(a) // a listener that takes its time (it runs inside the Player<Action> call, under the engine lock)
+		}
 		cp := a
 		cp.Positions = append([]string{}, a.Positions...)
 		d.mu.Lock()
